@@ -61,18 +61,38 @@ func aboWrites(byName map[string][]*peFunc, callee string) bool {
 	return false
 }
 
-func aboCallee(e ast.Expr) (string, bool) {
+func aboCallee(e ast.Expr) (*ast.CallExpr, string, bool) {
 	ce, ok := e.(*ast.CallExpr)
 	if !ok {
-		return "", false
+		return nil, "", false
 	}
 	switch fn := ce.Fun.(type) {
 	case *ast.Ident:
-		return fn.Name, true
+		return ce, fn.Name, true
 	case *ast.SelectorExpr:
-		return fn.Sel.Name, true
+		return ce, fn.Sel.Name, true
 	}
-	return "", false
+	return nil, "", false
+}
+
+// a function literal among the arguments that (transitively, by name) writes makes the call a write
+func aboFuncLitWrites(byName map[string][]*peFunc, ce *ast.CallExpr) bool {
+	found := false
+	for _, a := range ce.Args {
+		fl, ok := a.(*ast.FuncLit)
+		if !ok {
+			continue
+		}
+		ast.Inspect(fl.Body, func(n ast.Node) bool {
+			if c, ok := n.(*ast.CallExpr); ok {
+				if _, name, ok := aboCallee(c); ok && aboWrites(byName, name) {
+					found = true
+				}
+			}
+			return true
+		})
+	}
+	return found
 }
 
 func aboReturnsNil(body *ast.BlockStmt) (isReturn, isNil bool) {
@@ -97,12 +117,13 @@ func aboEvents(fset *token.FileSet, byName map[string][]*peFunc, stmts []ast.Stm
 	var ev []string
 	lastCall := ""
 	emitCall := func(e ast.Expr) {
-		if name, ok := aboCallee(e); ok {
+		if ce, name, ok := aboCallee(e); ok {
 			lastCall = name
-			if aboWrites(byName, name) {
-				ev = append(ev, "write:"+name)
+			text := exprString(fset, ce.Fun) // the printed callee expression, e.g. this.blockStore.NewBatch
+			if aboWrites(byName, name) || aboFuncLitWrites(byName, ce) {
+				ev = append(ev, "write:"+text)
 			} else {
-				ev = append(ev, "call:"+name)
+				ev = append(ev, "call:"+text)
 			}
 		}
 	}
@@ -118,6 +139,14 @@ func aboEvents(fset *token.FileSet, byName map[string][]*peFunc, stmts []ast.Stm
 			for _, r := range s.Results {
 				emitCall(r)
 			}
+		case *ast.RangeStmt:
+			ev = append(ev, "loop:"+exprString(fset, s.X))
+			ev = append(ev, aboEvents(fset, byName, s.Body.List)...)
+			ev = append(ev, "endloop")
+		case *ast.ForStmt:
+			ev = append(ev, "loop:")
+			ev = append(ev, aboEvents(fset, byName, s.Body.List)...)
+			ev = append(ev, "endloop")
 		case *ast.IfStmt:
 			if s.Init != nil {
 				if as, ok := s.Init.(*ast.AssignStmt); ok {
@@ -138,6 +167,10 @@ func aboEvents(fset *token.FileSet, byName map[string][]*peFunc, stmts []ast.Stm
 			default:
 				ev = append(ev, "block:"+cond)
 				ev = append(ev, aboEvents(fset, byName, s.Body.List)...)
+				if eb, ok := s.Else.(*ast.BlockStmt); ok {
+					ev = append(ev, "else")
+					ev = append(ev, aboEvents(fset, byName, eb.List)...)
+				}
 				ev = append(ev, "endblock")
 			}
 		}
@@ -190,6 +223,40 @@ func genAddBlockOrder(repo string) (string, error) {
 		}
 		fmt.Fprintf(&sb, "/-- %s:%s — top-level statements as (kind, text) events, in source order -/\ndef %s : List (String × String) :=\n  %s\n\n", file, fn, lean, leanPairList(ev))
 	}
+	for _, fn := range []string{"saveBlockToBlockStore", "saveBlockToStateStore", "saveBlockToEventStore"} {
+		fd := findFunc(f, fn)
+		if fd == nil {
+			return "", fmt.Errorf("%s: func %s not found", file, fn)
+		}
+		fmt.Fprintf(&sb, "/-- %s:%s — statements as (kind, text) events, in source order -/\ndef %s : List (String × String) :=\n  %s\n\n", file, fn, fn, leanPairList(aboEvents(fset, byName, fd.Body.List)))
+	}
+	// verifyHeader, non-VBFT path: the statements before `if consensusType == "vbft"` and the statements of its else branch
+	vh := findFunc(f, "verifyHeader")
+	if vh == nil {
+		return "", fmt.Errorf("%s: func verifyHeader not found", file)
+	}
+	var solo []string
+	foundSplit := false
+	for i, st := range vh.Body.List {
+		if is, ok := st.(*ast.IfStmt); ok && strings.Contains(exprString(fset, is.Cond), "\"vbft\"") {
+			eb, ok := is.Else.(*ast.BlockStmt)
+			if !ok {
+				return "", fmt.Errorf("%s:verifyHeader: the vbft `if` has no else block", file)
+			}
+			solo = append(aboEvents(fset, byName, vh.Body.List[:i]), aboEvents(fset, byName, eb.List)...)
+			for _, rest := range vh.Body.List[i+1:] {
+				if _, ok := rest.(*ast.ReturnStmt); !ok {
+					return "", fmt.Errorf("%s:verifyHeader: unexpected statement after the consensus-type branch", file)
+				}
+			}
+			foundSplit = true
+			break
+		}
+	}
+	if !foundSplit {
+		return "", fmt.Errorf("%s:verifyHeader: `if consensusType == \"vbft\"` not found", file)
+	}
+	fmt.Fprintf(&sb, "/-- %s:verifyHeader — non-VBFT path (statements before the consensus-type branch, then its else block) -/\ndef verifyHeaderSolo : List (String × String) :=\n  %s\n\n", file, leanPairList(solo))
 	_, vw, err := peWalk(byName, []string{"verifyHeader"})
 	if err != nil {
 		return "", err
